@@ -679,12 +679,12 @@ def gen_event(w):
     rng = w.rng
     e = {"uuid": U(rng), "offset": rng.choice([0, 15, 5730, -2]), "unit": rng.choice(["M", "H", "D", "W"])}
     if rng.random() < 0.5:
-        e.update({"event_type": "F", "delivery_hour": -1, "message": None,
+        e.update({"event_type": "F", "delivery_hour": rng.choice([-1, -1, 0, 23]), "message": None,
                   "relative_to": {"label": "Last Seen On", "key": "last_seen_on"}, "start_mode": rng.choice(["I", "S", "P"]),
                   "flow": w.flow_ref()})
         w.count("event:F")
     else:
-        e.update({"event_type": "M", "delivery_hour": rng.choice([-1, 18]), "message": {"eng": "SPAM", "fra": "SPAMME"},
+        e.update({"event_type": "M", "delivery_hour": rng.choice([-1, 0, 9, 18, 23]), "message": {"eng": "SPAM", "fra": "SPAMME"},
                   "relative_to": {"label": "Created On", "key": "created_on"}, "start_mode": rng.choice(["I", "S", "P"]),
                   "base_language": rng.choice(["eng", "eng", "fra"])})
         w.count("event:M")
